@@ -62,6 +62,49 @@ func TestVerifKeys(t *testing.T) {
 		}
 		tr.Emit(ev)
 
+		// ---------------------------------------------------------- viewing the outputs of a whole transaction
+		// script outputs at seeded positions among outputs of other types (withdrawal, node, custodian):
+		// the sender derives every key with the real output index; Transaction.ViewGhostKey must recover
+		// the recipient's public spend key for every script output
+		{
+			types := []uint8{OutputTypeScript, OutputTypeWithdrawalSubmit, OutputTypeWithdrawalClaim, OutputTypeNodePledge,
+				OutputTypeNodeAccept, OutputTypeNodeRemove, OutputTypeNodeCancel, OutputTypeCustodianUpdateNodes}
+			names := map[uint8]string{OutputTypeScript: "script", OutputTypeWithdrawalSubmit: "wsubmit", OutputTypeWithdrawalClaim: "wclaim",
+				OutputTypeNodePledge: "pledge", OutputTypeNodeAccept: "accept", OutputTypeNodeRemove: "remove", OutputTypeNodeCancel: "cancel",
+				OutputTypeCustodianUpdateNodes: "cupdate"}
+			tx := NewTransactionV5(XINAssetId)
+			cnt := 1 + r.Intn(5)
+			layout, want := []string{}, [][]string{}
+			for o := 0; o < cnt; o++ {
+				ot := types[0]
+				if r.Intn(2) == 0 {
+					ot = types[r.Intn(len(types))]
+				}
+				if o == cnt-1 && k%2 == 0 {
+					ot = OutputTypeScript // at least one script output, after whatever precedes it
+				}
+				layout = append(layout, names[ot])
+				if ot == OutputTypeScript {
+					tx.AddOutputWithType(ot, []*Address{&addr}, NewThresholdScript(1), NewInteger(uint64(o+1)), vkyBytes(r, 64))
+					want = append(want, []string{addr.PublicSpendKey.String()})
+				} else {
+					tx.AddOutputWithType(ot, nil, Script{}, NewInteger(uint64(o+1)), nil)
+				}
+			}
+			viewed := [][]string{}
+			res, _ = vCall(func() error {
+				for _, out := range tx.ViewGhostKey(&addr.PrivateViewKey) {
+					ks := []string{}
+					for _, key := range out.Keys {
+						ks = append(ks, key.String())
+					}
+					viewed = append(viewed, ks)
+				}
+				return nil
+			})
+			tr.Emit(vM{"ev": "viewtx", "res": res, "layout": layout, "viewed": viewed, "spend": want})
+		}
+
 		// ---------------------------------------------------------- address print / parse
 		s := addr.String()
 		var back Address
